@@ -39,6 +39,8 @@ const TOKEN_EXCL: &[char] = &['\\', '\n', ' ', '"'];
 fn quoteful(max: usize) -> impl Strategy<Value = String> {
     prop_oneof![
         5 => text(TOKEN_EXCL, max).boxed(),
+        // names with spaces (the reason names are quoted at all); no quote characters inside, or the line would be ambiguous
+        2 => prop::collection::vec(text(TOKEN_EXCL, max / 2), 2 .. 4).prop_map(|w| w.join(" ")).boxed(),
         1 => (text(TOKEN_EXCL, max), 0u8 .. 7).prop_map(|(t, how)| match how {
             0 => format!("\"{t}"),
             1 => format!("{t}\""),
@@ -85,8 +87,9 @@ fn player() -> impl Strategy<Value = QPlayer> {
                 frags,
                 time,
                 ping,
-                // an unquoted empty name would vanish from the line: always quote it
-                name_quoted: q || name.is_empty(),
+                // an unquoted empty name would vanish from the line, a name with a space would fall apart, and an unquoted name that begins with a
+                // quote it does not close would swallow the following fields: such names are always quoted
+                name_quoted: q || name.is_empty() || name.contains(' ') || (name.starts_with('"') && !(name.len() >= 2 && name.ends_with('"'))),
                 name,
                 skin,
                 c1,
